@@ -345,3 +345,90 @@ def run_cp(ctx, case):
 
 def run_case(ctx, case):
     {"ranks": run_ranks, "tsvd": run_tsvd, "cp": run_cp}[case["kind"]](ctx, case)
+
+
+# =============================================================================== correspondence with the Lean model (main session)
+def _corr_cases(rng, tier):
+    n = {"quick": 250, "thorough": 4000, "search": 0}[tier]
+    out = []
+    for _ in range(n):
+        m, k = rng.randint(1, 8), rng.randint(1, 8)
+        kind = rng.choice(["generic", "decay", "lowrank", "int"])
+        out.append({"kind": "corr", "m": m, "n": k, "fill": kind, "seed": rng.randrange(1 << 30),
+                    "budget": rng.choice(["delta", "eps", "none"]), "rmax": rng.choice([None, None, 1, 2, 3, 5]),
+                    "left_ortho": rng.random() < 0.5, "level": rng.choice([1e-3, 1e-2, 0.1, 0.3, 0.6, 0.9])})
+    return out
+
+
+_orig_cases = cases
+_orig_run_case = run_case
+
+
+def cases(rng, tier):  # noqa: F811
+    return _orig_cases(rng, tier) + _corr_cases(rng, tier)
+
+
+def run_case(ctx, case):  # noqa: F811
+    if case.get("kind") != "corr":
+        return _orig_run_case(ctx, case)
+    import random as _r
+    import numpy as np, torch
+    from core import q, safe
+    rng = _r.Random(case["seed"])
+    m, n = case["m"], case["n"]
+    if case["fill"] == "int":
+        M = np.array([[rng.randint(-3, 3) for _ in range(n)] for _ in range(m)], dtype=np.float64)
+    elif case["fill"] == "lowrank":
+        r = rng.randint(1, max(1, min(m, n) - 1))
+        M = np.array([[rng.gauss(0, 1) for _ in range(r)] for _ in range(m)]) @ np.array([[rng.gauss(0, 1) for _ in range(n)] for _ in range(r)])
+    else:
+        M = np.array([[rng.gauss(0, 1) for _ in range(n)] for _ in range(m)])
+        if case["fill"] == "decay":
+            U, S, Vt = np.linalg.svd(M, full_matrices=False)
+            M = (U * (S * np.array([0.3 ** i for i in range(len(S))]))) @ Vt
+    ctx.case(("corr", "rank_select", m, n, case["fill"], case["budget"], case["rmax"]), True,
+             {"op": "model correspondence: rank selection of truncated_svd", **{k: v for k, v in case.items() if k not in ("kind",)}})
+    ctx.count("corr:rank_select")
+    if not (getattr(ctx, "use_model", False) and not getattr(ctx, "search_only", False)):
+        return
+    Mt = torch.tensor(M)
+    nrm = float(torch.norm(Mt))
+    kw = {"left_ortho": case["left_ortho"], "rmax": case["rmax"]}
+    delta = None
+    if case["budget"] == "delta":
+        delta = case["level"] * nrm; kw["delta"] = delta
+    elif case["budget"] == "eps":
+        kw["eps"] = case["level"]; delta = case["level"] * torch.norm(Mt).item()
+    else:
+        delta = 0
+    rec = []
+    orig = torch.linalg.svd
+
+    def wrapped(A, *a, **k):
+        out = orig(A, *a, **k); rec.append(out[1].detach().clone()); return out
+    torch.linalg.svd = wrapped
+    try:
+        r = safe(lambda: tn.truncated_svd(Mt, **kw))
+    finally:
+        torch.linalg.svd = orig
+    if r[0] == "err":
+        ctx.oracle("truncated_svd raised %s: %s" % (r[1], r[2]), case); return
+    if not rec:
+        ctx.corr("torch.linalg.svd was not called", case); return
+    S = rec[0]
+    if float(S[0]) < 1e-13:
+        ctx.count("skipped:zero matrix special case"); return
+    S2 = (S ** 2)
+    d2 = delta ** 2
+    # near-ties between a float cumsum and the budget are not decidable by an exact model: discard and count
+    cs = torch.cumsum(torch.flip(S2, [0]), 0).numpy()
+    if np.any(np.abs(cs - d2) <= 1e-12 * max(1.0, float(cs[-1]))) and d2 > 0:
+        ctx.count("discarded:near-tie"); return
+    rmax = case["rmax"] if case["rmax"] is not None else 2147483647
+    toks = ctx.drv().call("rank_select %d %s %s %d" % (len(S2), " ".join(q(v) for v in S2.numpy()), q(d2), rmax))
+    if toks[0] != "ok":
+        ctx.corr("model rank_select failed: %s" % " ".join(toks[:4]), case); return
+    mr = int(toks[2])
+    ir = r[1][0].shape[1]
+    if mr != ir:
+        ctx.corr("truncated_svd chose rank %d, the model's rankSelect gives %d (S=%s, delta^2=%g, rmax=%s)" % (ir, mr, S.tolist(), d2, case["rmax"]), case)
